@@ -547,6 +547,29 @@ theorem adm_of_trajAdm {ph : Phys} (inp : Inputs ℝ) (kCN i : Nat) (hi : i < in
     rw [hnm]
     exact (C06.adm_solid ham hne).1
 
+/-- **the monitored hypothesis is a theorem for thermally uncoupled vials** (`k_int·A = 0`, any
+start temperature inside C06's stability range): `Hyp.adm` of every vial follows from
+`C06.trajAdm_uncoupled`, so for these runs every "full-under-monitored-hypothesis" theorem of this
+file holds with nothing monitored. -/
+theorem adm_uncoupled {ph : Phys} (inp : Inputs ℝ) (kCN i : Nat) (hi : i < inp.nVials) (hiT : ℝ)
+    (hwf : Snow.C05.WF inp.oc inp.p.dt)
+    (st : C06.Stable ph inp.p inp.nVials inp.oc.stop hiT)
+    (hk : inp.p.kInt * inp.p.A = 0)
+    (hT0 : inp.oc.start ≤ inp.T0) (hT0hi : inp.T0 ≤ hiT) (hstart : inp.oc.start ≤ hiT) :
+    Adm (vtraj inp kCN i) :=
+  adm_of_trajAdm inp kCN i hi st.dt_pos (C06.trajAdm_uncoupled inp kCN hiT hwf st hk hT0 hT0hi hstart)
+
+/-- **the monitored hypothesis is a theorem for a process that starts at or below the liquidus**
+(`C06.Stable` with `hi = T_eq_l`, static inequality `C06.StaticSide`): from
+`C06.trajAdm_below_liquidus`. -/
+theorem adm_below_liquidus {ph : Phys} (inp : Inputs ℝ) (kCN i : Nat) (hi : i < inp.nVials)
+    (hwf : Snow.C05.WF inp.oc inp.p.dt)
+    (st : C06.Stable ph inp.p inp.nVials inp.oc.stop ph.TeqL)
+    (hstat : C06.StaticSide ph inp.p inp.nVials inp.oc.stop)
+    (hT0 : inp.oc.start ≤ inp.T0) (hT0hi : inp.T0 ≤ ph.TeqL) (hstart : inp.oc.start ≤ ph.TeqL) :
+    Adm (vtraj inp kCN i) :=
+  adm_of_trajAdm inp kCN i hi st.dt_pos (C06.trajAdm_below_liquidus inp kCN hwf st hstat hT0 hT0hi hstart)
+
 /-- the trajectory hypothesis as a condition on the vial's own stored row `X_sigma[i, :]` -/
 theorem hyp_adm_of_row (inp : Inputs ℝ) (kCN i : Nat) (h : StaysIce (sigmaRow inp kCN i)) :
     Adm (vtraj inp kCN i) := adm_of_row inp kCN i h
